@@ -563,6 +563,105 @@ fn import_order_case(case: &mut Case) -> CaseResult {
     Ok(())
 }
 
+
+/// built CLI, schema given as an introspection result (`schema.json`): the types listed in any order, with or
+/// without the meta types, and - in half of the cases - with one or two entries listed twice (the same
+/// text: some gateways merge sub-schemas that way); `generate` in k fresh processes must print and write the
+/// same bytes whatever it makes of the input.
+fn introspection_case(case: &mut Case, base: &Path, k_runs: usize) -> CaseResult {
+    use crate::introspect::{introspect, IntrospectOpts};
+    let so = crate::gen_schema::SchemaGenOpts::default();
+    let gs = crate::gen_schema::gen_schema(&mut case.ch, &so);
+    let s = &gs.schema;
+    let (gd, _) = crate::gen_ops::gen_doc(&mut case.ch, s, &crate::gen_ops::DocGenOpts::default());
+    let cfg = crate::refexec::ScalarCfg::generate(&mut case.ch, s, false);
+    let sy = crate::props::c15::scalars_yaml(&cfg, s);
+    let mode = *case.ch.pick(&crate::projects::MODES);
+    let io = IntrospectOpts { meta_types: case.ch.flip(), absent_optionals: case.ch.flip(), shuffle: case.ch.flip() };
+    let mut js = introspect(s, &io, Some(&mut case.ch));
+    let dup = case.ch.flip();
+    if dup {
+        if let Ok(mut v) = serde_json::from_str::<serde_json::Value>(&js) {
+            let types = v.pointer_mut("/data/__schema/types").or(None);
+            let types = match types {
+                Some(t) => Some(t),
+                None => None,
+            };
+            let mut done = false;
+            if let Some(serde_json::Value::Array(ts)) = types {
+                let n = 1 + case.ch.below(2);
+                for _ in 0..n {
+                    if ts.is_empty() {
+                        break;
+                    }
+                    let i = case.ch.below(ts.len());
+                    let copy = ts[i].clone();
+                    let at = case.ch.below(ts.len() + 1);
+                    ts.insert(at, copy);
+                    done = true;
+                }
+            }
+            if !done {
+                if let Some(serde_json::Value::Array(ts)) = v.pointer_mut("/__schema/types") {
+                    if !ts.is_empty() {
+                        let i = case.ch.below(ts.len());
+                        let copy = ts[i].clone();
+                        let at = case.ch.below(ts.len() + 1);
+                        ts.insert(at, copy);
+                        done = true;
+                    }
+                }
+            }
+            if done {
+                js = serde_json::to_string_pretty(&v).unwrap();
+                case.label("type-listed-twice");
+            }
+        }
+    }
+    let ops = vec![("main.graphql".to_string(), canon_op(&gd.doc))];
+    let detail = json!({"introspection": js, "operations": ops[0].1, "mode": mode});
+    let p = crate::props::c15::write_variant(base, "schema.json", &js, &sy, mode, &ops);
+    let inputs: Vec<String> = vec!["graphql.config.yaml".to_string(), "schema.json".to_string(), "ops/main.graphql".to_string()];
+    let res = (|| -> CaseResult {
+        let mut first: Option<(Option<i32>, String, BTreeMap<String, String>)> = None;
+        for r in 0..k_runs {
+            let run = run_cli(&p.dir, &["generate", "--output-format", "json"]);
+            if run.crashed() {
+                case.label("introspection-project-crashes-generate");
+                return Ok(());
+            }
+            let mut snap: BTreeMap<String, String> = BTreeMap::new();
+            for (name, _) in p.snapshot() {
+                if !inputs.contains(&name) {
+                    snap.insert(name.clone(), p.read(&name).unwrap_or_default());
+                }
+            }
+            case.evals(1);
+            match &first {
+                None => first = Some((run.status, run.stdout.clone(), snap)),
+                Some((st, out, files)) => {
+                    if *st != run.status || *out != run.stdout {
+                        return Err(Failure::new("nondeterministic-stdout", format!("run {r} printed different status/diagnostics than run 0"), json!({"detail": detail, "run0": out, "run": run.stdout})));
+                    }
+                    if *files != snap {
+                        let diff: Vec<&String> = files.keys().filter(|k| files.get(*k) != snap.get(*k)).collect();
+                        return Err(Failure::new("nondeterministic-files", format!("run {r} wrote other bytes than run 0 in {diff:?}"), json!({"detail": detail, "files": diff})));
+                    }
+                }
+            }
+        }
+        if let Some((st, _, files)) = &first {
+            if *st == Some(0) && !files.is_empty() {
+                case.nontrivial(&(&js, &ops[0].1, mode));
+            }
+        }
+        case.sample(|| json!({"types_listed_twice": dup, "mode": mode}));
+        Ok(())
+    })();
+    p.remove();
+    res
+}
+
 pub fn run(env: &Env) -> i32 {
     let mut rep = Report::new(
         env,
@@ -583,6 +682,9 @@ pub fn run(env: &Env) -> i32 {
     rep.note("campaign history (built CLI): `generate` runs in a directory in which an earlier `generate` ran with other options (scalar mappings, allowUndefinedAsOptionalInput, naming, exports, emitSchemaRuntime) and/or another text in one operation file; every file a fresh directory gets must be there with the same bytes (no state carried from one run to the next: the statement's `regardless of` covers what an earlier run left behind; this is also where a stale declaration would contradict C09/C10/C14). Non-trivial: the earlier run succeeded and differed");
     let b3 = base.join("history");
     rep.campaign("history", env.cases(150, 1_500), (300, 1800), move |case| history_case(case, &b3));
+    rep.note("campaign introspection-json (built CLI): the schema as an introspection result - types in any order, with or without meta types, half of them with one or two type entries listed twice - and one generated operation document; `generate` in k fresh processes: same status, same stdout, same bytes in every written file. Non-trivial: generate succeeded and wrote files");
+    let b4 = base.join("introspection");
+    rep.campaign("introspection-json", env.cases(150, 1_500), (300, 1800), move |case| introspection_case(case, &b4, k));
     rep.campaign("import-order", env.cases(20_000, 300_000), (20, 400), import_order_case);
     rep.campaign("schema-verdict-order", env.cases(30_000, 400_000), (200, 1500), schema_verdict_case);
     rep.finish()
